@@ -14,9 +14,16 @@ Close Scope string_scope.
 (* when the arguments convert, the wrapper returns exactly what the Go function returns on the
    converted arguments (its value through the result constructor, its error as an error object) *)
 Theorem C19_wrapper_exact : forall (F : string -> list gval -> gret) w args a,
-  unpack w args = Ok a ->
+  unpack w args = Ok a -> guards_pass w (place w a) = true ->
   run_wrapper F w args = lift (w_ret w) (F (w_callee w) (place w a)).
 Proof. exact wrapper_exact. Qed.
+
+(* when one of the wrapper's own value checks fires (repeat: negative count, result too large) the
+   result is a value error, whatever the Go function is (it is not called) *)
+Theorem C19_wrapper_guard_error : forall (F : string -> list gval -> gret) w args a,
+  unpack w args = Ok a -> guards_pass w (place w a) = false ->
+  run_wrapper F w args = Ret (OErr EValue).
+Proof. exact wrapper_guard_error. Qed.
 
 (* when the number of arguments is wrong or a conversion fails the result is that error object,
    whatever the Go function is (it is not called) *)
@@ -42,23 +49,53 @@ Proof. exact wrapper_passes_in_order. Qed.
 Theorem C19_gen_wrappers_wf : forallb wrapper_wf gen_wrappers = true.
 Proof. vm_compute. reflexivity. Qed.
 
-(* "errors are reported as script errors rather than panics" is FALSE of the code as it is:
-   strings.repeat hands a negative count to strings.Repeat, which panics *)
-Theorem C19_refuted_repeat_panics : exists w args t,
-  find_wrapper "strings.repeat" gen_wrappers = Some w /\
-  run_wrapper go_repeat w args = Panic t.
-Proof.
-  destruct (find_wrapper "strings.repeat" gen_wrappers) as [w|] eqn:E; [|vm_compute in E; discriminate].
-  exists w, [OString [97%N]; OInt (-1)], (bytes_of_string "strings: negative Repeat count").
-  split; [reflexivity|]. vm_compute in E. inversion E. vm_compute. reflexivity.
-Qed.
-
-(* guarded: where the Go function is defined on the converted arguments (does not panic), the
-   wrapper returns an object *)
+(* "errors are reported as script errors rather than panics": where the Go function is defined on
+   the converted arguments (does not panic), the wrapper returns an object *)
 Theorem C19_wrapper_total_guarded : forall (F : string -> list gval -> gret) w args,
-  (forall a t, unpack w args = Ok a -> F (w_callee w) (place w a) <> GPanic t) ->
+  (forall a t, unpack w args = Ok a -> guards_pass w (place w a) = true ->
+               F (w_callee w) (place w a) <> GPanic t) ->
   exists o, run_wrapper F w args = Ret o.
 Proof. exact wrapper_total_guarded. Qed.
+
+(* strings.Repeat and bytes.Repeat are the wrapped functions that panic on some arguments (negative
+   count, result that cannot be allocated).  Since risor e9aa972 the three repeat wrappers check the
+   count first: the records regenerated from the source have the guarded shape ... *)
+Definition repeat_names : list string :=
+  ["strings.repeat"; "bytes.repeat"; "byte_slice.repeat"]%string.
+
+Theorem C19_repeat_records_guarded : forall name, In name repeat_names ->
+  exists callee c0 ret b,
+    text_conv c0 = true /\ (0 <= b < 2 ^ 40)%Z /\
+    find_wrapper name gen_wrappers = Some (mk_repeat name callee c0 ret b).
+Proof.
+  intros name H. simpl in H.
+  destruct H as [<-|[<-|[<-|[]]]]; do 4 eexists; (split; [|split]);
+    [ | |vm_compute; reflexivity| | |vm_compute; reflexivity| | |vm_compute; reflexivity];
+    try reflexivity; vm_compute; (split; [discriminate|reflexivity]).
+Qed.
+
+(* ... so they never panic, for every argument tuple, against a model of Repeat that panics on a
+   negative count and on every result of 2^40 bytes or more ... *)
+Theorem C19_repeat_never_panics : forall name w args,
+  In name repeat_names -> find_wrapper name gen_wrappers = Some w ->
+  exists o, run_wrapper go_repeat w args = Ret o.
+Proof.
+  intros name w args H E.
+  destruct (C19_repeat_records_guarded name H) as [callee [c0 [ret [b [T [B E']]]]]].
+  rewrite E' in E. inversion E. subst w. exact (mk_repeat_total name callee c0 ret b args T B).
+Qed.
+
+(* ... and a negative count is answered with an error object whatever the Go function does *)
+Theorem C19_repeat_negative_is_error : forall (F : string -> list gval -> gret) name w p x g n,
+  In name repeat_names -> find_wrapper name gen_wrappers = Some w ->
+  hd_error (w_params w) = Some p -> convert (p_conv p) x = Ok g -> (n < 0)%Z ->
+  run_wrapper F w [x; OInt n] = Ret (OErr EValue).
+Proof.
+  intros F name w p x g n H E P C N.
+  destruct (C19_repeat_records_guarded name H) as [callee [c0 [ret [b [T [B E']]]]]].
+  rewrite E' in E. inversion E. subst w. simpl in P. inversion P. subst p. simpl in C.
+  exact (mk_repeat_negative F name callee c0 ret b x g n C N).
+Qed.
 
 (* ---------------------------------------------------------------- codecs
    base64, base32, hex, gzip, urlquery: glue around an encoder/decoder pair whose law is the
@@ -162,6 +199,18 @@ Proof. exact hex_dec_law. Qed.
 Example C19_json_safe_satisfiable :
   json_safe (OMap [([97]%N, OList [OInt 9007199254740992; OFloat (FFin true 3 (-1)); ONil; OString [195; 169]%N])]) = true.
 Proof. vm_compute. reflexivity. Qed.
+(* the checks are what keeps the panic away: the same record without them panics on ("a", -1) *)
+Example C19_repeat_unguarded_would_panic : exists t,
+  run_wrapper go_repeat
+    {| w_name := "strings.repeat"; w_min := 2; w_max := 2;
+       w_params := w_params (mk_repeat "strings.repeat" "strings.Repeat" CString RString 0);
+       w_consts := []; w_guards := []; w_callee := "strings.Repeat"; w_ret := RString; w_regular := true |}
+    [OString [97%N]; OInt (-1)] = Panic t.
+Proof. eexists. vm_compute. reflexivity. Qed.
+Example C19_repeat_negative_instance : forall F w,
+  find_wrapper "strings.repeat" gen_wrappers = Some w ->
+  run_wrapper F w [OString [97%N]; OInt (-1)] = Ret (OErr EValue).
+Proof. intros F w E. vm_compute in E. inversion E. reflexivity. Qed.
 Example C19_repeat_guard_satisfiable : forall w,
   find_wrapper "strings.repeat" gen_wrappers = Some w ->
   run_wrapper go_repeat w [OString [97%N]; OInt 2] = Ret (OString [97; 97]%N).
